@@ -195,6 +195,27 @@ def fmtComposite : Val → Option Bytes
       (fun ps => asciiBytes "map[" ++ joinSp ps ++ [93])
   | v => fmtScalar v
 
+/-- `fmt.Fprint` (`%v`) of nested composites: slices and maps of scalars, slices, maps and interface
+    values holding those, to a bounded depth.  Floats, structs (unexported fields print too), non-nil
+    pointers (addresses) and `[]byte` stay outside the model. -/
+def fmtDeep : Nat → Val → Option Bytes
+  | 0, _ => none
+  | fuel + 1, v =>
+    match v with
+    | .slice es _ _ => (es.mapM (fmtDeep fuel)).map (fun ps => 91 :: joinSp ps ++ [93])
+    | .smap es _ _ =>
+      ((sortEntries es).mapM (fun e => (fmtDeep fuel e.2).map (fun p => e.1 ++ 58 :: p))).map
+        (fun ps => asciiBytes "map[" ++ joinSp ps ++ [93])
+    | .iface .invalid => some (asciiBytes "<nil>")
+    | .iface w => fmtDeep fuel w
+    | .ptr _ none => some (asciiBytes "<nil>")
+    | w => fmtScalar w
+
+def fmtAny (v : Val) : Option Bytes :=
+  match fmtComposite v with
+  | some b => some b
+  | none => fmtDeep 6 v
+
 /-- `maybeDereference(v, 2)` -/
 def maybeDeref : Nat → Val → Val
   | 0, v => v
@@ -215,10 +236,10 @@ def printValue (v : Val) : Option (List Piece) :=
     -- kind Interface: falls through to fmt.Fprint(w, v.Interface()) — one write
     match inner with
     | .float _ => none
-    | _ => (fmtComposite inner).map (fun b => [Piece.lit b])
+    | _ => (fmtAny inner).map (fun b => [Piece.lit b])
   | .ptr _ none => some [Piece.lit (asciiBytes "<nil>")]
-  | w@(.slice _ _ _) => (fmtComposite w).map (fun b => [Piece.lit b])
-  | w@(.smap _ _ _) => (fmtComposite w).map (fun b => [Piece.lit b])
+  | w@(.slice _ _ _) => (fmtAny w).map (fun b => [Piece.lit b])
+  | w@(.smap _ _ _) => (fmtAny w).map (fun b => [Piece.lit b])
   | _ => none
 
 /-! ### escapers -/
